@@ -1,0 +1,38 @@
+//go:build verif
+
+package hermes
+
+// Probes of the verification harness: observation points in the day loop of Run. The harness
+// installs callbacks before it starts runs; they only read the state they are handed.
+
+// VerifProbes is the set of callbacks; nil entries are skipped.
+type VerifProbes struct {
+	DayStart   func(g *GlobalVarsMain, w *WaterSharedVars, n *NitroSharedVars, c *CropSharedVars, zeit int, wdt float64)
+	AfterWater func(g *GlobalVarsMain, w *WaterSharedVars, zeit, subd int, wdt, steps float64)
+	AfterNitro func(g *GlobalVarsMain, w *WaterSharedVars, n *NitroSharedVars, zeit, subd int, wdt, steps float64)
+	DayEnd     func(g *GlobalVarsMain, w *WaterSharedVars, n *NitroSharedVars, c *CropSharedVars, zeit int)
+}
+
+// VerifProbe is read by the probe functions; set it before starting runs.
+var VerifProbe *VerifProbes
+
+func verifDayStartProbe(g *GlobalVarsMain, w *WaterSharedVars, n *NitroSharedVars, c *CropSharedVars, zeit int, wdt float64) {
+	if p := VerifProbe; p != nil && p.DayStart != nil {
+		p.DayStart(g, w, n, c, zeit, wdt)
+	}
+}
+func verifAfterWaterProbe(g *GlobalVarsMain, w *WaterSharedVars, zeit, subd int, wdt, steps float64) {
+	if p := VerifProbe; p != nil && p.AfterWater != nil {
+		p.AfterWater(g, w, zeit, subd, wdt, steps)
+	}
+}
+func verifAfterNitroProbe(g *GlobalVarsMain, w *WaterSharedVars, n *NitroSharedVars, zeit, subd int, wdt, steps float64) {
+	if p := VerifProbe; p != nil && p.AfterNitro != nil {
+		p.AfterNitro(g, w, n, zeit, subd, wdt, steps)
+	}
+}
+func verifDayEndProbe(g *GlobalVarsMain, w *WaterSharedVars, n *NitroSharedVars, c *CropSharedVars, zeit int) {
+	if p := VerifProbe; p != nil && p.DayEnd != nil {
+		p.DayEnd(g, w, n, c, zeit)
+	}
+}
